@@ -4,9 +4,18 @@ T: TLC explores models/PusVerificator.tla (documented state machine, invariants 
    model), dumps the complete labelled state graph, and EVERY edge (s, action(args), s') is replayed on a
    fresh real PusVerificator with real PusTc / Service1Tm objects: abstraction of the implementation state
    must equal s', and the call's answer must be the one the action name stands for.
-H: breadth-first search directly over the implementation against a Python port of the documented table,
-   with a larger alphabet (two step IDs, three telecommands in the thorough tier).
-DESIGN.md sections 2.4 and 4/C16."""
+H: (a) breadth-first search over the reachable graph of a Python port of the documented table, every
+   transition executed on the implementation, with a larger alphabet (two step IDs, three telecommands
+   in the thorough tier) and, at every state, "probe" events: reports / remove_entry calls for request
+   IDs that differ from a registered one in exactly one of the 32 bits (must be unknown), reports whose
+   irrelevant content varies (APID of the report, time stamp, field widths, step-ID boundary values);
+   (b) stateless: ALL histories up to depth D over a stated alphabet, each executed on a fresh tracker
+   (hidden implementation state - caches - cannot hide behind a shortest path).
+Hidden state (T and H(a)): after every conforming transition the COMPLETE attribute graph of the tracker
+   is compared with the one reached by the shortest history of the same documented state; a tracker that
+   carries something else (a lookup cache, a counter, a 'finished' set) is a new *extended* state and is
+   explored too (every event from it, recursively, de-duplicated on documented state + attribute graph).
+DESIGN.md sections 2.3, 2.4 and 4/C16."""
 
 from __future__ import annotations
 
@@ -22,21 +31,47 @@ PROPERTY = "C16"
 LEVEL = "model_checking"
 EXHAUSTIVE = True
 RULE = (
-    "TLC enumerates all reachable states of the TLA+ model (NTC telecommands whose request IDs differ only in the sequence "
+    "T: TLC enumerates all reachable states of the TLA+ model (NTC telecommands whose request IDs differ only in the sequence "
     "count + one never-registered telecommand, step IDs STEPIDS, step list <= MAXSTEPS) and checks the model properties; every "
-    "edge of the dumped graph is replayed on the implementation via the shortest path to its source state. In addition a BFS over "
-    "the implementation itself (state = full dump of verif_dict) is compared transition by transition with a Python port of the "
-    "documented table. states/transitions = model states/edges + implementation-BFS states/transitions; traces = edges replayed."
+    "edge of the dumped graph is replayed on the implementation via the shortest path to its source state (source state, answer and "
+    "destination state compared). H/bfs: every transition of the reachable graph of a Python port of the documented table is "
+    "executed the same way, and at every state the probe events: reports and remove_entry calls for each single-bit neighbour "
+    "(32 bits incl. the 3 version bits) of each telecommand's request ID (never registered -> None / False, nothing changes), "
+    "reports for the telecommand with a different report APID / non-empty time stamp / 16-bit step and error-code fields / step "
+    "IDs 0 and 255 (same effect as the plain report). Extended states (T and H/bfs): whenever the tracker's complete attribute "
+    "graph (pickle of vars(tracker), aliasing included, dict-valued attributes ordered by key) after a conforming transition differs "
+    "from the one the destination state's shortest history produces, the pair is a new state and every event is applied from it too "
+    "(breadth-first, de-duplicated, per-shard cap EXT_CAP; 0 on a tracker without hidden state). H/stateless: every event sequence "
+    "of length 1..D over the stated alphabet is executed from a fresh tracker; the state before the last event, its answer and the "
+    "state after it are compared with the table, and every result handed out earlier in the history must still have its completed "
+    "flag and status object. A divergence is always reported at the first diverging event of the history (minimal replay). "
+    "states = model states + table states (+ extended states); transitions = model edges + table transitions + probes + "
+    "stateless histories; traces = histories executed on the implementation."
 )
-BOUNDS = {"quick": "T: NTC=2, STEPIDS={1}, MAXSTEPS=2 (a failed step can be followed by a successful one); H: 1 TC, step ids {1,2}, step list <= 3", "thorough": "T as quick; H: 2 TCs step ids {1,2} list<=2; 1 TC step ids {1,2,3} list<=4; 3 TCs with reports {1,2,3,5,6,7} list<=1"}
+BOUNDS = {
+    "quick": "T: NTC=2, STEPIDS={1}, MAXSTEPS=2 (a failed step can be followed by a successful one), extended states <= 400 per shard; "
+             "H/bfs: 1 TC, step ids {1,2}, step list <= 3, all probes (32 neighbours x (8 subservices + remove_entry), 25 report variants); "
+             "H/stateless: 1 TC, {add_tc, remove_entry, remove_completed, reports 1..8, report for a never-registered TC} (12 events) depth 5; "
+             "2 TCs, {add_tc, remove_entry} x 2, remove_completed, reports {1,2,4,6} x 2 (13 events) depth 5",
+    "thorough": "T as quick; H/bfs: 2 TCs step ids {1,2} list<=2; 1 TC step ids {1,2,3} list<=4 with all probes; 3 TCs with reports {1,2,3,5,6,7} list<=1; "
+                "2 TCs step ids {1} list<=1 with probes (64 neighbours x (subservices 1,6 + remove_entry), report variants); "
+                "H/stateless: 1 TC, 14 events (step ids {1,2}) depth 6; 2 TCs, 13 events depth 6",
+}
 ASSUMPTIONS = [
     "the documented state machine is the table in DESIGN.md section 4/C16 (from the class and TmCheckResult docstrings and the property text)",
     "TLC 1.8.0 explores the model completely (it reports 0 states left on queue); fingerprint collision probability as printed by TLC",
+    "a request ID is the 32-bit value version(3) | packet type(1) | secondary header flag(1) | APID(11) | sequence flags(2) | sequence count(14) "
+    "(RequestId docstring / as_u32): IDs that differ in any bit are different telecommands",
+    "extended states are merged when documented state and attribute graph agree, ignoring the insertion order of dict-valued attributes "
+    "(order-dependent behaviour within depth D is covered by the stateless part, which merges nothing)",
 ]
 
 VERIF = os.path.dirname(os.path.dirname(os.path.abspath(__file__)))
 SPEC = os.path.join(VERIF, "models", "PusVerificator.tla")
 UNSET, FAILURE, SUCCESS = 0, 1, 2
+APID, SEQ0 = 0x2A, 100
+EXT_CAP_T, EXT_CAP_H = 400, 2000
+VARIANTS = ("apid", "stamp", "wide")
 
 
 def cfg_text(ntc, stepids, maxsteps):
@@ -44,11 +79,21 @@ def cfg_text(ntc, stepids, maxsteps):
             "SPECIFICATION Spec\nINVARIANT TypeOK\nPROPERTIES StepFailSticky AllMonotone StepsGrow AllOnlyByRule FrameCond RemoveExact\n")
 
 
+def nb_field(b):
+    """request-ID field that bit b (0 = least significant of the 32) belongs to"""
+    return "seqcount" if b < 14 else "seqflags" if b < 16 else "apid" if b < 27 else "shf" if b == 27 else "ptype" if b == 28 else "version"
+
+
+def key_u32(k):
+    """32-bit request ID from the attributes of a RequestId (no library method involved)"""
+    pid, psc = k.tc_packet_id, k.tc_psc
+    return ((int(k.ccsds_version) & 7) << 29 | (int(pid.ptype) & 1) << 28 | (1 if pid.sec_header_flag else 0) << 27
+            | (int(pid.apid) & 0x7FF) << 16 | (int(psc.seq_flags) & 3) << 14 | (int(psc.seq_count) & 0x3FFF))
+
+
 # ------------------------------------------------------------------ the implementation side
 class Impl:
     """real objects: telecommands 1..n differ only in the sequence count; telecommand 0 is never registered"""
-
-    _cache = {}
 
     def __init__(self, ntc):
         from spacepackets.ecss.tc import PusTc
@@ -58,62 +103,87 @@ class Impl:
         self.ntc = ntc
         self.PusVerificator = PusVerificator
         self.sf = {StatusField.UNSET: UNSET, StatusField.FAILURE: FAILURE, StatusField.SUCCESS: SUCCESS}
-        self.tcs = {t: PusTc(service=17, subservice=1, apid=0x2A, seq_count=100 + t) for t in range(0, ntc + 1)}
+        self.tcs = {t: PusTc(service=17, subservice=1, apid=APID, seq_count=SEQ0 + t) for t in range(0, ntc + 1)}
+        self.tcs_dec = {}
         self.rids = {t: RequestId.from_pus_tc(tc) for t, tc in self.tcs.items()}
+        # the request IDs as the harness knows them (version 0, TC, secondary header, APID, unsegmented, count)
+        self.u32 = {t: (1 << 28) | (1 << 27) | (APID << 16) | (3 << 14) | (SEQ0 + t) for t in range(0, ntc + 1)}
         self.tms = {}
+        self.nbs = {}
 
-    def tm(self, t, s, step_id, decoded):
-        key = (t, s, step_id, decoded)
+    # -- objects -------------------------------------------------------------------
+    def tc(self, t, decoded):
+        if not decoded:
+            return self.tcs[t]
+        if t not in self.tcs_dec:
+            from spacepackets.ecss.tc import PusTc
+
+            self.tcs_dec[t] = PusTc.unpack(bytes(self.tcs[t].pack()))
+        return self.tcs_dec[t]
+
+    def rid(self, u, decoded):
+        """RequestId object for the 32-bit value u: through the constructors, or decoded from its 4 octets"""
+        key = (u, decoded)
+        if key not in self.nbs:
+            from spacepackets.ccsds.spacepacket import PacketId, PacketSeqCtrl, PacketType, SequenceFlags
+            from spacepackets.ecss.req_id import RequestId
+
+            if decoded:
+                r = RequestId.unpack(u.to_bytes(4, "big"))
+            else:
+                r = RequestId(PacketId(PacketType((u >> 28) & 1), bool((u >> 27) & 1), (u >> 16) & 0x7FF),
+                              PacketSeqCtrl(SequenceFlags((u >> 14) & 3), u & 0x3FFF), ccsds_version=(u >> 29) & 7)
+            self.nbs[key] = r
+        return self.nbs[key]
+
+    def nb_u32(self, t, b):
+        """single-bit neighbour of telecommand t's request ID, or None if that is one of the telecommands 1..ntc"""
+        u = self.u32[t] ^ (1 << b)
+        return None if any(u == self.u32[x] for x in range(1, self.ntc + 1)) else u
+
+    def tm(self, rid_key, s, step_id, decoded, variant=None):
+        """service-1 report; rid_key: telecommand number or ('u32', value)"""
+        key = (rid_key, s, step_id, decoded, variant)
         if key not in self.tms:
             from spacepackets.ecss import pus_1_verification as p1
-            from spacepackets.ecss.fields import PacketFieldU8
+            from spacepackets.ecss.fields import PacketFieldU8, PacketFieldU16
 
-            step = PacketFieldU8(step_id) if s in (5, 6) else None
-            fn = p1.FailureNotice(PacketFieldU8(3), b"\x01") if s % 2 == 0 else None
-            tm = p1.Service1Tm(apid=0x2A, subservice=p1.Subservice(s), timestamp=b"", seq_count=s,
-                               verif_params=p1.VerificationParams(self.rids[t], step, fn))
+            rid = self.rids[rid_key] if isinstance(rid_key, int) else self.rid(rid_key[1], False)
+            fld = PacketFieldU16 if variant == "wide" else PacketFieldU8
+            step = fld(step_id) if s in (5, 6) else None
+            fn = p1.FailureNotice(fld(3), b"\x01") if s % 2 == 0 else None
+            stamp = b"\x01\x02\x03\x04\x05\x06\x07" if variant == "stamp" else b""
+            kw = {"apid": 0x2B, "seq_count": 77, "destination_id": 5} if variant == "apid" else {"apid": APID, "seq_count": s}
+            tm = p1.Service1Tm(subservice=p1.Subservice(s), timestamp=stamp, verif_params=p1.VerificationParams(rid, step, fn), **kw)
             if decoded:
-                tm = p1.Service1Tm.unpack(bytes(tm.pack()), p1.UnpackParams(0, 1, 1))
+                w = 2 if variant == "wide" else 1
+                tm = p1.Service1Tm.unpack(bytes(tm.pack()), p1.UnpackParams(len(stamp), w, w))
             self.tms[key] = tm
         return self.tms[key]
 
     def fresh(self):
         return self.PusVerificator()
 
-    def apply(self, v, action, args, decoded=False):
-        """returns the observable answer of the call in model terms"""
-        if action in ("AddTcNew", "AddTcDup"):
-            # a *new* PusTc object with the same header each time: identity must not matter
-            from spacepackets.ecss.tc import PusTc
+    # -- observation ---------------------------------------------------------------
+    def records(self, v):
+        """{32-bit request ID: [records stored under keys with that value]} - by scanning verif_dict, keys read by attribute"""
+        out = {}
+        for k, r in v.verif_dict.items():
+            out.setdefault(key_u32(k), []).append(r)
+        return out
 
-            t = args[0]
-            tc = self.tcs[t] if not decoded else PusTc.unpack(bytes(self.tcs[t].pack()))
-            return ("bool", v.add_tc(tc))
-        if action in ("RemoveHit", "RemoveMiss"):
-            return ("bool", v.remove_entry(self.rids[args[0]]))
-        if action == "RemoveCompleted":
-            return ("none", v.remove_completed_entries())
-        if action in ("AddTmDone", "AddTmOpen", "AddTmIgnored"):
-            t, s = args
-            sid = 1
-        elif action in ("AddTmStepOpen", "AddTmStepDone"):
-            t, sid = args
-            s = 5 if action == "AddTmStepOpen" else 6
-        elif action == "AddTmUnknownTc":
-            t, s, sid = 0, args[0], 1
-        else:
-            raise AssertionError("unknown action " + action)
-        res = v.add_tm(self.tm(t, s, sid, decoded))
-        if res is None:
-            return ("tm", None)
-        same = res.status is v.verif_dict.get(self.rids[t])
-        return ("tm", (bool(res.completed), same))
+    def record_of(self, v, t):
+        rs = self.records(v).get(self.u32[t], [])
+        return rs[0] if len(rs) == 1 else None
 
     def abstract(self, v):
-        d = v.verif_dict
+        by = self.records(v)
         st = {"tracked": [], "acc": [], "sta": [], "stp": [], "cmp": [], "allr": [], "steps": []}
+        own = 0
         for t in range(1, self.ntc + 1):
-            r = d.get(self.rids[t])
+            rs = by.get(self.u32[t], [])
+            r = rs[0] if len(rs) == 1 else None
+            own += r is not None
             st["tracked"].append(r is not None)
             if r is None:
                 vals = (UNSET, UNSET, UNSET, UNSET, False, [])
@@ -121,9 +191,62 @@ class Impl:
                 vals = (self.sf[r.accepted], self.sf[r.started], self.sf[r.step], self.sf[r.completed], bool(r.all_verifs_recvd), [int(x) for x in r.step_list])
             for k, x in zip(("acc", "sta", "stp", "cmp", "allr", "steps"), vals):
                 st[k].append(x)
-        extra = [k for k in d if all(k != self.rids[t] for t in range(1, self.ntc + 1))]
-        st["foreign_keys"] = len(extra)
+        st["foreign_keys"] = sum(len(x) for x in by.values()) - own
         return st
+
+    def view_h(self, v):
+        a = self.abstract(v)
+        out = []
+        for i in range(self.ntc):
+            out.append(None if not a["tracked"][i] else (a["acc"][i], a["sta"][i], a["stp"][i], a["cmp"][i], a["allr"][i], tuple(a["steps"][i])))
+        return tuple(out), a["foreign_keys"]
+
+    # -- events --------------------------------------------------------------------
+    def apply(self, v, ev, decoded=False):
+        """executes one event (H vocabulary); returns (answer in model terms, raw result of add_tm or None)"""
+        k = ev[0]
+        if k == "add_tc":
+            # a PusTc object that is reused / a decoded copy: identity must not matter
+            return ("bool", v.add_tc(self.tc(ev[1], decoded))), None
+        if k == "remove":
+            return ("bool", v.remove_entry(self.rid(self.u32[ev[1]], True) if decoded else self.rids[ev[1]])), None
+        if k == "remove_nb":
+            return ("bool", v.remove_entry(self.rid(self.nb_u32(ev[1], ev[2]), decoded))), None
+        if k == "remove_completed":
+            return ("none", v.remove_completed_entries()), None
+        if k == "tm":
+            _, t, s, sid = ev
+            tm = self.tm(t, s, sid, decoded)
+        elif k == "tm_var":
+            _, t, s, sid, variant = ev
+            tm = self.tm(t, s, sid, decoded, variant)
+        elif k == "tm_nb":
+            _, t, b, s = ev
+            tm = self.tm(("u32", self.nb_u32(t, b)), s, 1, decoded)
+        else:
+            raise AssertionError("unknown event %r" % (ev,))
+        res = v.add_tm(tm)
+        if res is None:
+            return ("tm", None), None
+        rec = self.record_of(v, t) if t else None
+        return ("tm", (bool(res.completed), rec is not None and res.status is rec)), res
+
+
+def t2h(action, args):
+    """TLA+ action label -> event"""
+    if action in ("AddTcNew", "AddTcDup"):
+        return ("add_tc", args[0])
+    if action in ("RemoveHit", "RemoveMiss"):
+        return ("remove", args[0])
+    if action == "RemoveCompleted":
+        return ("remove_completed",)
+    if action in ("AddTmDone", "AddTmOpen", "AddTmIgnored"):
+        return ("tm", args[0], args[1], 1)
+    if action in ("AddTmStepOpen", "AddTmStepDone"):
+        return ("tm", args[0], 5 if action == "AddTmStepOpen" else 6, args[1])
+    if action == "AddTmUnknownTc":
+        return ("tm", 0, args[0], 1)
+    raise AssertionError("unknown action " + action)
 
 
 EXPECT = {
@@ -133,42 +256,54 @@ EXPECT = {
 }
 
 
-def replay_path(impl, path, decoded_last=False):
-    """path: list of (action, args).  returns (answer of the last call, abstract state) ; raises on exceptions"""
-    v = impl.fresh()
-    ans = None
-    for i, (a, args) in enumerate(path):
-        ans = impl.apply(v, a, tuple(args), decoded=(decoded_last and i == len(path) - 1))
-    return ans, impl.abstract(v)
-
-
-def model_state_norm(st, ntc):
-    out = {k: list(st[k]) for k in ("tracked", "acc", "sta", "stp", "cmp", "allr")}
-    out["steps"] = [list(x) for x in st["steps"]]
-    out["foreign_keys"] = 0
-    return out
-
-
-def check_edge(rec, impl, path, action, args, expected_state, decoded_last):
-    full = list(path) + [(action, args)]
-    case = {"kind": "edge", "ntc": impl.ntc, "path": [[a, list(g)] for a, g in full], "decoded_last": decoded_last,
-            "expected_state": expected_state}
-    rec.traces += 1
+def dump_key(v):
+    """canonical image of the COMPLETE attribute graph of the tracker (values and aliasing): equal images => the two
+    trackers are isomorphic Python object graphs => same future behaviour.  dict-valued attributes are ordered by key."""
+    d = {}
+    for name, val in vars(v).items():
+        if isinstance(val, dict):
+            items = list(val.items())
+            try:
+                items.sort(key=lambda kv: key_u32(kv[0]))
+            except Exception:  # noqa: BLE001 - not request IDs
+                try:
+                    items.sort(key=lambda kv: repr(kv[0]))
+                except Exception:  # noqa: BLE001
+                    pass
+            d[name] = items
+        else:
+            d[name] = val
     try:
-        ans, st = replay_path(impl, full, decoded_last)
-    except Exception as e:
-        rec.violation(f"C16.exception/{action}/{type(e).__name__}", case, repr(e), None)
-        return
-    if ans != EXPECT[action]:
-        rec.violation(f"C16.answer/{action}" + (f"/subservice={args[1]}" if action in ("AddTmDone", "AddTmOpen") else ""), case, ans, EXPECT[action])
-    if st != expected_state:
-        diff = [k for k in st if st[k] != expected_state.get(k)]
-        rec.violation(f"C16.state/{action}" + (f"/subservice={args[1]}" if action in ("AddTmDone", "AddTmOpen") else "") + "/" + "+".join(diff), case, st, expected_state)
+        return pickle.dumps(d, 4)
+    except Exception:  # noqa: BLE001 - something unpicklable is stored: structural walk
+        return repr(_walk(d, {}, 0)).encode()
 
 
-# ------------------------------------------------------------------ engine H: BFS on the implementation vs the table
+def _walk(x, memo, depth):
+    if x is None or isinstance(x, (bool, int, float, str, bytes)):
+        return x
+    if id(x) in memo:
+        return ("ref", memo[id(x)])
+    memo[id(x)] = len(memo)
+    if depth > 12:
+        return ("deep", type(x).__name__)
+    if isinstance(x, dict):
+        return ("dict", [(_walk(k, memo, depth + 1), _walk(w, memo, depth + 1)) for k, w in x.items()])
+    if isinstance(x, (list, tuple)):
+        return (type(x).__name__, [_walk(w, memo, depth + 1) for w in x])
+    if isinstance(x, (set, frozenset)):
+        return ("set", sorted(repr(_walk(w, memo, depth + 1)) for w in x))
+    if isinstance(x, bytearray):
+        return ("bytearray", bytes(x))
+    a = getattr(x, "__dict__", None)
+    if isinstance(a, dict):
+        return (type(x).__name__, [(k, _walk(w, memo, depth + 1)) for k, w in a.items()])
+    return ("opaque", type(x).__name__)
+
+
+# ------------------------------------------------------------------ the documented table (Python port)
 def table_step(state, ev, ntc):
-    """Python port of the documented table. state: tuple per tc (1..ntc) of None | (acc, sta, stp, cmp, allr, steps)"""
+    """state: tuple per tc (1..ntc) of None | (acc, sta, stp, cmp, allr, steps); returns (state', answer)"""
     kind = ev[0]
     st = list(state)
     if kind == "add_tc":
@@ -183,9 +318,13 @@ def table_step(state, ev, ntc):
             return state, ("bool", False)
         st[t - 1] = None
         return tuple(st), ("bool", True)
+    if kind == "remove_nb":
+        return state, ("bool", False)
+    if kind == "tm_nb":
+        return state, ("tm", None)
     if kind == "remove_completed":
         return tuple(None if (r is not None and r[4]) else r for r in st), ("none", None)
-    _, t, s, sid = ev
+    t, s, sid = ev[1], ev[2], ev[3]
     if t == 0 or st[t - 1] is None:
         return state, ("tm", None)
     acc, sta, stp, cmp_, allr, steps = st[t - 1]
@@ -216,29 +355,127 @@ def table_step(state, ev, ntc):
     return tuple(st), ("tm", (s % 2 == 0 or s == 7, True))
 
 
-def impl_apply_event(impl, v, ev, decoded=False):
+def table_run(hist, ntc):
+    st = tuple([None] * ntc)
+    for ev in hist:
+        st, _ = table_step(st, ev, ntc)
+    return st
+
+
+def model_to_table(st, ntc):
+    """normalised TLC state (dict of lists) -> table state"""
+    return tuple(None if not st["tracked"][i] else (st["acc"][i], st["sta"][i], st["stp"][i], st["cmp"][i], st["allr"][i], tuple(st["steps"][i]))
+                 for i in range(ntc))
+
+
+def ev_sig(ev):
     k = ev[0]
-    if k == "add_tc":
-        return impl.apply(v, "AddTcNew", (ev[1],), decoded)
-    if k == "remove":
-        return impl.apply(v, "RemoveHit", (ev[1],))
-    if k == "remove_completed":
-        return impl.apply(v, "RemoveCompleted", ())
-    _, t, s, sid = ev
-    res = v.add_tm(impl.tm(t, s, sid, decoded))
-    if res is None:
-        return ("tm", None)
-    return ("tm", (bool(res.completed), res.status is v.verif_dict.get(impl.rids[t])))
+    if k in ("tm", "tm_var"):
+        return f"{k}/subservice={ev[2]}" + (f"/variant={ev[4]}" if k == "tm_var" else "")
+    if k in ("tm_nb", "remove_nb"):
+        return f"{k}/field={nb_field(ev[2])}"
+    return k
 
 
-def impl_state(impl, v):
-    a = impl.abstract(v)
-    out = []
-    for i in range(impl.ntc):
-        out.append(None if not a["tracked"][i] else (a["acc"][i], a["sta"][i], a["stp"][i], a["cmp"][i], a["allr"][i], tuple(a["steps"][i])))
-    return tuple(out), a["foreign_keys"]
+# ------------------------------------------------------------------ executing one case
+def hist_case(ntc, hist, decoded_last):
+    return {"kind": "hist", "ntc": ntc, "history": [list(e) for e in hist], "decoded_last": bool(decoded_last)}
 
 
+def locate_divergence(rec, impl, hist):
+    """the state reached by `hist` (all objects constructed) is not the table's: report the FIRST diverging event with
+    the history up to it as the case (so that the replay artefact is minimal and its signature names that event)"""
+    ntc = impl.ntc
+    v = impl.fresh()
+    st = tuple([None] * ntc)
+    for i, ev in enumerate(hist):
+        case = hist_case(ntc, hist[: i + 1], False)
+        exp_state, exp_ans = table_step(st, ev, ntc)
+        try:
+            ans, _ = impl.apply(v, ev, False)
+        except Exception as e:  # noqa: BLE001
+            rec.violation(f"C16.exception/hist/{ev_sig(ev)}/{type(e).__name__}", case, repr(e), None)
+            return
+        got = impl.view_h(v)
+        bad = False
+        if ans != exp_ans:
+            rec.violation(f"C16.answer/hist/{ev_sig(ev)}", case, ans, exp_ans)
+            bad = True
+        if got != (exp_state, 0):
+            rec.violation(f"C16.state/hist/{ev_sig(ev)}", case, got, (exp_state, 0))
+            bad = True
+        if bad:
+            return
+        st = exp_state
+    rec.violation("C16.nondeterministic/hist", hist_case(ntc, hist, False), "state differs between two executions of the same history", None)
+
+
+def run_events(rec, impl, prefix, last, decoded_last, view, exp_src, exp_dst, exp_ans, sig, case, state_sig=None):
+    """fresh tracker; prefix (constructed objects) must lead to exp_src - otherwise the first diverging event of the
+    prefix is located and reported; then `last`: answer, resulting state, and the results handed out earlier.
+    returns the tracker if everything agreed, else None"""
+    v = impl.fresh()
+    held = []
+    try:
+        for e in prefix:
+            _, res = impl.apply(v, e, False)
+            if res is not None:
+                held.append((res, bool(res.completed), res.status))
+    except Exception:  # noqa: BLE001 - the shorter history is a case of its own; name its first diverging event
+        locate_divergence(rec, impl, prefix)
+        return None
+    if view(v) != exp_src:
+        rec.count("prefix_diverged")
+        locate_divergence(rec, impl, prefix)
+        return None
+    try:
+        ans, _res = impl.apply(v, last, decoded_last)
+    except Exception as e:  # noqa: BLE001
+        rec.violation(f"C16.exception/{sig}/{type(e).__name__}", case, repr(e), None)
+        return None
+    got = view(v)
+    ok = True
+    if ans != exp_ans:
+        rec.violation(f"C16.answer/{sig}", case, ans, exp_ans)
+        ok = False
+    if got != exp_dst:
+        rec.violation(f"C16.state/{sig}" + (state_sig(got, exp_dst) if state_sig else ""), case, got, exp_dst)
+        ok = False
+    for res, completed, status in held:
+        if bool(res.completed) != completed or res.status is not status:
+            rec.violation("C16.independence/add_tm/result-changed-by-a-later-call", case, (bool(res.completed), res.status is status), (completed, True))
+            ok = False
+            break
+    return v if ok else None
+
+
+def check_hist(rec, impl, hist, src_state, decoded_last):
+    """history in the H vocabulary; src_state: table state the prefix hist[:-1] leads to"""
+    ntc = impl.ntc
+    ev = hist[-1]
+    exp_state, exp_ans = table_step(src_state, ev, ntc)
+    rec.transitions += 1
+    rec.traces += 1
+    rec.ops += len(hist)
+    return run_events(rec, impl, hist[:-1], ev, decoded_last, impl.view_h, (src_state, 0), (exp_state, 0), exp_ans,
+                      "hist/" + ev_sig(ev), hist_case(ntc, hist, decoded_last))
+
+
+def _diff_sig(got, exp):
+    return "/" + "+".join(k for k in got if got[k] != exp.get(k))
+
+
+def check_edge(rec, impl, path, action, args, src_state, dst_state, decoded_last):
+    """path: tuple of (action, args) in the TLA+ vocabulary"""
+    case = {"kind": "edge", "ntc": impl.ntc, "path": [[a, list(g)] for a, g in path] + [[action, list(args)]], "decoded_last": bool(decoded_last),
+            "source_state": src_state, "expected_state": dst_state}
+    rec.traces += 1
+    sig = action + (f"/subservice={args[1]}" if action in ("AddTmDone", "AddTmOpen") else "")
+    return run_events(rec, impl, [t2h(a, g) for a, g in path], t2h(action, args), decoded_last, impl.abstract, src_state, dst_state,
+                      EXPECT[action], sig, case, _diff_sig)
+
+
+# ------------------------------------------------------------------ engine H (a): table graph, probes, extended states
 def event_menu(ntc, stepids, subservices):
     events = []
     for t in range(1, ntc + 1):
@@ -252,9 +489,35 @@ def event_menu(ntc, stepids, subservices):
     return events
 
 
+def probe_menu(impl, level):
+    """events whose effect the table fixes without enlarging its state space: never-registered single-bit neighbours
+    of every telecommand's request ID, and reports whose content differs only in what the tracker must ignore"""
+    ev = []
+    if level == "none":
+        return ev
+    subs = list(range(1, 9)) if level == "full" else [1, 6]
+    for t in range(1, impl.ntc + 1):
+        for b in range(31, -1, -1):
+            if impl.nb_u32(t, b) is None:
+                continue
+            ev.append(("remove_nb", t, b))
+            for s in subs:
+                ev.append(("tm_nb", t, b, s))
+    for t in range(1, impl.ntc + 1):
+        for variant in ("apid", "stamp"):
+            for s in range(1, 9):
+                ev.append(("tm_var", t, s, 1, variant))
+        for s in (2, 4, 5, 6, 8):
+            ev.append(("tm_var", t, s, 300, "wide"))
+        for s in (5, 6):
+            for sid in (0, 255):
+                ev.append(("tm", t, s, sid))
+    return ev
+
+
 def enabled(state, ev, maxsteps):
     """the step-list bound is an enabling condition of step reports (as in the TLA+ model)"""
-    if ev[0] == "tm" and ev[2] in (5, 6) and ev[1] > 0 and state[ev[1] - 1] is not None:
+    if ev[0] in ("tm", "tm_var") and ev[2] in (5, 6) and ev[1] > 0 and state[ev[1] - 1] is not None:
         return len(state[ev[1] - 1][5]) < maxsteps
     return True
 
@@ -277,46 +540,172 @@ def table_reach(ntc, events, maxsteps):
     return seen
 
 
-def bfs_impl(rec, ntc, stepids, maxsteps, subservices, part, parts):
+def bfs_impl(rec, ntc, stepids, maxsteps, subservices, part, parts, probes="none"):
     """conformance of EVERY transition of the table model's reachable graph: each reachable state is rebuilt on a
-    fresh tracker by replaying its shortest history through the real methods, then every enabled event is applied
-    and answer + resulting state are compared with the table.  (Induction over BFS order: if every transition out
-    of every table-reachable state agrees, the implementation's reachable set is the table's.)"""
+    fresh tracker by replaying its shortest history through the real methods, then every enabled event (and probe)
+    is applied and source state, answer and resulting state are compared with the table.  (Induction over BFS order:
+    if every transition out of every table-reachable state agrees, the implementation's reachable set is the table's -
+    for a tracker whose attribute graph is a function of the documented state; otherwise the extended states follow.)"""
     impl = Impl(ntc)
     events = event_menu(ntc, stepids, subservices)
     reach = table_reach(ntc, events, maxsteps)
+    probe_events = probe_menu(impl, probes)
+    canon = {}
+
+    def canon_key(st):
+        if st not in canon:
+            canon[st] = None
+            h = reach.get(st)
+            if h is not None:
+                try:
+                    v = impl.fresh()
+                    for e in h:
+                        impl.apply(v, e, False)
+                    canon[st] = dump_key(v)
+                except Exception:  # noqa: BLE001 - reported where that history is a case
+                    pass
+        return canon[st]
+
+    work = collections.deque()
     mine = 0
     for idx, (state, hist) in enumerate(reach.items()):
-        if idx % parts != part:
-            continue
-        mine += 1
-        for ev in events:
+        if idx % parts == part:
+            mine += 1
+            work.append((state, hist, False))
+    seen_ext = set()
+    while work:
+        state, hist, is_ext = work.popleft()
+        for ev in (events if is_ext else events + probe_events):
             if not enabled(state, ev, maxsteps):
                 continue
-            v = impl.fresh()
-            try:
-                for e in hist:
-                    impl_apply_event(impl, v, e)
-            except Exception as e:
-                rec.violation(f"C16.exception/history/{type(e).__name__}", {"kind": "hist", "ntc": ntc, "history": [list(x) for x in hist]}, repr(e), None)
-                break
-            rec.transitions += 1
-            rec.traces += 1
-            exp_state, exp_ans = table_step(state, ev, ntc)
-            case = {"kind": "hist", "ntc": ntc, "history": [list(e) for e in hist + (ev,)]}
-            try:
-                ans = impl_apply_event(impl, v, ev, decoded=(len(hist) % 2 == 1))
-            except Exception as e:
-                rec.violation(f"C16.exception/{ev[0]}/{type(e).__name__}", case, repr(e), None)
+            v = check_hist(rec, impl, hist + (ev,), state, decoded_last=(len(hist) % 2 == 1))
+            if v is None:
                 continue
-            got, foreign = impl_state(impl, v)
-            if ans != exp_ans:
-                rec.violation(f"C16.answer/bfs/{ev[0]}" + (f"/subservice={ev[2]}" if ev[0] == "tm" else ""), case, ans, exp_ans)
-            if got != exp_state or foreign:
-                rec.violation(f"C16.state/bfs/{ev[0]}" + (f"/subservice={ev[2]}" if ev[0] == "tm" else ""), case, got, exp_state)
-    rec.states += mine
+            dst = table_step(state, ev, ntc)[0]
+            ck = canon_key(dst)
+            if ck is None:
+                continue
+            k = dump_key(v)
+            if k != ck and (dst, k) not in seen_ext:
+                if len(seen_ext) >= EXT_CAP_H:
+                    rec.count("ext_cap_hit")
+                    continue
+                seen_ext.add((dst, k))
+                work.append((dst, hist + (ev,), True))
+    rec.states += mine + len(seen_ext)
     rec.count("impl_bfs_states", mine)
+    rec.count("impl_hist_cases", rec.traces)
+    rec.count("extended_states", len(seen_ext))
     rec.outcome(f"bfs/ntc={ntc}/part={part}/states={mine}")
+
+
+# ------------------------------------------------------------------ engine H (b): stateless, all histories up to depth D
+def stateless_menu(ntc, subs, stepids, unknown):
+    events = []
+    for t in range(1, ntc + 1):
+        events.append(("add_tc", t))
+        events.append(("remove", t))
+    events.append(("remove_completed",))
+    for t in range(1, ntc + 1):
+        for s in subs:
+            for sid in (stepids if s in (5, 6) else (1,)):
+                events.append(("tm", t, s, sid))
+    if unknown:
+        events.append(("tm", 0, 1, 1))
+    return events
+
+
+def stateless(rec, ntc, events, depth, part, parts):
+    impl = Impl(ntc)
+    init = tuple([None] * ntc)
+    n = len(events)
+
+    def rec_down(hist, state, idxsum):
+        # hist has been checked by the caller; extend by every event
+        if len(hist) >= depth:
+            return
+        for i, ev in enumerate(events):
+            h = hist + (ev,)
+            check_hist(rec, impl, h, state, decoded_last=bool((idxsum + i + len(h)) & 1))
+            rec_down(h, table_step(state, ev, ntc)[0], idxsum + i)
+
+    # shards are the first-two-event prefixes; the histories of length 1 belong to part 0
+    if part == 0:
+        for i, ev in enumerate(events):
+            check_hist(rec, impl, (ev,), init, decoded_last=bool((i + 1) & 1))
+    for p in range(n * n):
+        if p % parts != part:
+            continue
+        i, j = divmod(p, n)
+        s1 = table_step(init, events[i], ntc)[0]
+        h = (events[i], events[j])
+        check_hist(rec, impl, h, s1, decoded_last=bool((i + j + 2) & 1))
+        rec_down(h, table_step(s1, events[j], ntc)[0], i + j)
+    rec.count("stateless_histories", rec.traces)
+    rec.count("impl_hist_cases", rec.traces)
+    rec.outcome(f"stateless/ntc={ntc}/depth={depth}/events={n}")
+
+
+# ------------------------------------------------------------------ engine T: every edge of the TLC graph
+def run_edges(rec, item, data):
+    impl = Impl(data["ntc"])
+    states, paths, edges = data["states"], data["paths"], data["edges"]
+    order = {sid: i for i, sid in enumerate(states)}
+    part, parts = item["part"], item["parts"]
+    # a shard owns the edges INTO its states: the canonical attribute graph of a state is computed once
+    mine = [(gi, e) for gi, e in enumerate(edges) if order[e[1]] % parts == part]
+    canon = {}
+
+    def canon_key(sid):
+        if sid not in canon:
+            canon[sid] = None
+            try:
+                v = impl.fresh()
+                for a, g in paths[sid]:
+                    impl.apply(v, t2h(a, g), False)
+                canon[sid] = dump_key(v)
+            except Exception:  # noqa: BLE001 - reported where that path is a case
+                pass
+        return canon[sid]
+
+    seen_ext = set()
+    work = collections.deque()
+
+    def one(path, src, dst, a, args, decoded_last):
+        v = check_edge(rec, impl, path, a, args, states[src], states[dst], decoded_last)
+        rec.outcome(a)
+        rec.ops += len(path) + 1
+        if v is None:
+            return
+        ck = canon_key(dst)
+        if ck is None:
+            return
+        k = dump_key(v)
+        if k != ck and (dst, k) not in seen_ext:
+            if len(seen_ext) >= EXT_CAP_T:
+                rec.count("ext_cap_hit")
+                return
+            seen_ext.add((dst, k))
+            work.append((dst, path + ((a, args),)))
+
+    for gi, (src, dst, a, args) in mine:
+        one(paths[src], src, dst, a, args, gi % 2 == 1)
+    rec.evaluations += len(mine)
+    rec.nontrivial += len(mine)
+    if work:
+        out = collections.defaultdict(list)
+        for src, dst, a, args in edges:
+            out[src].append((dst, a, args))
+        while work:
+            sid, path = work.popleft()
+            for i, (dst, a, args) in enumerate(out[sid]):
+                one(path, sid, dst, a, args, (len(path) + i) % 2 == 1)
+                rec.evaluations += 1
+                rec.nontrivial += 1
+    rec.states += item["model_states"] + len(seen_ext)
+    rec.transitions += item["model_edges"]
+    rec.count("extended_states", len(seen_ext))
+    return mine
 
 
 # ------------------------------------------------------------------ shards
@@ -344,17 +733,34 @@ def shards(tier):
     for i in range(nparts):
         items.append({"kind": "edges", "file": fn, "part": i, "parts": nparts, "tlc": info if i == 0 else None, "model_states": len(states) if i == 0 else 0, "model_edges": len(edges) if i == 0 else 0})
     subs = [1, 2, 3, 4, 5, 6, 7, 8]
+
+    def bfs(n, ntc, stepids, maxsteps, subs_, probes):
+        for part in range(n):
+            items.append({"kind": "bfs", "ntc": ntc, "stepids": stepids, "maxsteps": maxsteps, "subs": subs_, "part": part, "parts": n, "probes": probes})
+
+    def sl(n, ntc, subs_, stepids, unknown, depth):
+        for part in range(n):
+            items.append({"kind": "stateless", "ntc": ntc, "subs": subs_, "stepids": stepids, "unknown": unknown, "depth": depth, "part": part, "parts": n})
+
     if q:
-        for part in range(4):
-            items.append({"kind": "bfs", "ntc": 1, "stepids": [1, 2], "maxsteps": 3, "subs": subs, "part": part, "parts": 4})
+        bfs(16, 1, [1, 2], 3, subs, "full")
+        sl(8, 1, subs, [1], True, 5)
+        sl(16, 2, [1, 2, 4, 6], [1], False, 5)
     else:
-        for part in range(32):
-            items.append({"kind": "bfs", "ntc": 2, "stepids": [1, 2], "maxsteps": 2, "subs": subs, "part": part, "parts": 32})
-        for part in range(4):
-            items.append({"kind": "bfs", "ntc": 1, "stepids": [1, 2, 3], "maxsteps": 4, "subs": subs, "part": part, "parts": 4})
-        for part in range(16):
-            items.append({"kind": "bfs", "ntc": 3, "stepids": [1], "maxsteps": 1, "subs": [1, 2, 3, 5, 6, 7], "part": part, "parts": 16})
+        bfs(32, 2, [1, 2], 2, subs, "none")
+        bfs(16, 1, [1, 2, 3], 4, subs, "full")
+        bfs(16, 3, [1], 1, [1, 2, 3, 5, 6, 7], "none")
+        bfs(32, 2, [1], 1, subs, "reduced")
+        sl(32, 1, subs, [1, 2], True, 6)
+        sl(32, 2, [1, 2, 4, 6], [1], False, 6)
     return items
+
+
+def model_state_norm(st, ntc):
+    out = {k: list(st[k]) for k in ("tracked", "acc", "sta", "stp", "cmp", "allr")}
+    out["steps"] = [list(x) for x in st["steps"]]
+    out["foreign_keys"] = 0
+    return out
 
 
 def run_shard(item):
@@ -362,23 +768,19 @@ def run_shard(item):
     if item["kind"] == "edges":
         with open(item["file"], "rb") as f:
             data = pickle.load(f)
-        impl = Impl(data["ntc"])
-        mine = data["edges"][item["part"]::item["parts"]]
-        for i, (src, dst, a, args) in enumerate(mine):
-            check_edge(rec, impl, data["paths"][src], a, args, data["states"][dst], decoded_last=(i % 2 == 1))
-            rec.outcome(a)
-        rec.states += item["model_states"]
-        rec.transitions += item["model_edges"]
-        rec.evaluations += len(mine)
-        rec.nontrivial += len(mine)
-        rec.ops += sum(len(data["paths"][e[0]]) + 1 for e in mine)
+        mine = run_edges(rec, item, data)
         if item["tlc"]:
             rec.extra = {"tlc": item["tlc"]}
-            src, dst, a, args = mine[-1]
+            _gi, (src, dst, a, args) = mine[-1]
             p, exp = data["paths"][src], data["states"][dst]
             rec.sample({"edge_replayed": [[x, list(y)] for x, y in p] + [[a, list(args)]], "expected_answer": EXPECT[a], "expected_state": exp})
+    elif item["kind"] == "bfs":
+        bfs_impl(rec, item["ntc"], item["stepids"], item["maxsteps"], item["subs"], item["part"], item["parts"], item["probes"])
+        rec.evaluations += rec.transitions
+        rec.nontrivial += rec.transitions
     else:
-        bfs_impl(rec, item["ntc"], item["stepids"], item["maxsteps"], item["subs"], item["part"], item["parts"])
+        events = stateless_menu(item["ntc"], item["subs"], item["stepids"], item["unknown"])
+        stateless(rec, item["ntc"], events, item["depth"], item["part"], item["parts"])
         rec.evaluations += rec.transitions
         rec.nontrivial += rec.transitions
     return rec.result()
@@ -388,26 +790,11 @@ def replay(case):
     rec = Rec(PROPERTY, "replay")
     impl = Impl(case["ntc"])
     if case["kind"] == "edge":
-        path = [(a, tuple(g)) for a, g in case["path"]]
-        check_edge(rec, impl, path[:-1], path[-1][0], path[-1][1], case["expected_state"], case["decoded_last"])
+        path = tuple((a, tuple(g)) for a, g in case["path"])
+        check_edge(rec, impl, path[:-1], path[-1][0], path[-1][1], case["source_state"], case["expected_state"], case["decoded_last"])
     else:
-        hist = [tuple(e) for e in case["history"]]
-        v = impl.fresh()
-        st = tuple([None] * case["ntc"])
-        for i, ev in enumerate(hist):
-            exp_state, exp_ans = table_step(st, ev, case["ntc"])
-            try:
-                ans = impl_apply_event(impl, v, ev, decoded=(i == len(hist) - 1 and (len(hist) - 1) % 2 == 1))
-            except Exception as e:
-                rec.violation(f"C16.exception/{ev[0]}/{type(e).__name__}", case, repr(e), None)
-                break
-            got, foreign = impl_state(impl, v)
-            if ans != exp_ans:
-                rec.violation(f"C16.answer/bfs/{ev[0]}" + (f"/subservice={ev[2]}" if ev[0] == "tm" else ""), case, ans, exp_ans)
-            if got != exp_state or foreign:
-                rec.violation(f"C16.state/bfs/{ev[0]}" + (f"/subservice={ev[2]}" if ev[0] == "tm" else ""), case, got, exp_state)
-                break
-            st = exp_state
+        hist = tuple(tuple(e) for e in case["history"])
+        check_hist(rec, impl, hist, table_run(hist[:-1], case["ntc"]), case.get("decoded_last", False))
     return rec.result()
 
 
@@ -418,6 +805,8 @@ def finalize(tier, agg):
     except OSError:
         pass
     tlc = next((e["tlc"] for e in agg["extra"] if e.get("tlc")), {})
+    c = agg["counters"]
     return {"tlc_distinct_states": tlc.get("distinct"), "tlc_states_generated": tlc.get("generated"), "tlc_graph_depth": tlc.get("depth"),
             "tlc_cmd": tlc.get("cmd"), "model_properties_checked_by_tlc": ["TypeOK", "StepFailSticky", "AllMonotone", "StepsGrow", "AllOnlyByRule", "FrameCond", "RemoveExact"],
-            "edges_replayed_on_implementation": agg["traces"], "implementation_bfs_states": agg["counters"].get("impl_bfs_states", 0)}
+            "edges_replayed_on_implementation": agg["traces"] - c.get("impl_hist_cases", 0), "implementation_bfs_states": c.get("impl_bfs_states", 0),
+            "stateless_histories": c.get("stateless_histories", 0), "extended_states": c.get("extended_states", 0)}
